@@ -265,6 +265,17 @@ def install(world):
     reg('min', b_minmax(True))
     reg('max', b_minmax(False))
 
+    def b_sum(x, start=0):
+        items = list(x)
+        cur = start
+        for v in items:
+            if S.is_sym(cur) or S.is_sym(v):
+                cur = SInt(TInt.unwrap(cur) + TInt.unwrap(v))
+            else:
+                cur = cur + v
+        return cur
+    reg('sum', b_sum)
+
     def b_callable(x):
         if isinstance(x, (FuncRef, SFunc, Model, BoundMethod, ClassRef)):
             return True
@@ -282,6 +293,8 @@ def install(world):
     reg('hasattr', b_hasattr)
 
     def b_iter(it, node, x):
+        if isinstance(x, (dict, tuple, list, set, frozenset, str)):
+            return iter(x)
         if isinstance(x, MList):
             x = x.seq
         if isinstance(x, SSeq) and x.kind != 'iter':
@@ -293,6 +306,13 @@ def install(world):
     reg('iter', b_iter, True)
 
     def b_next(it, node, x, *d):
+        if hasattr(x, '__next__') and not S.is_sym(x):
+            try:
+                return next(x)
+            except StopIteration:
+                if d:
+                    return d[0]
+                it.raise_('StopIteration', node=node)
         raise Unsupported('next()')
     reg('next', b_next, True)
 
